@@ -2,6 +2,7 @@
 import json, os
 import seqprop
 from props import _seqplans
+import schedupper
 
 THEOREMS = json.load(open(os.path.join(os.path.dirname(__file__), "_theorems.json")))["C10"]
 
@@ -11,5 +12,6 @@ def run(ctx):
     return seqprop.run(
         ctx, THEOREMS, corr=('result', 'trees', 'locals'), oracle=('C10',),
         quick_plan=quick, thorough_plan=thorough, corpus_tags=(),
+        extra=schedupper.run_c10_conc,   # quiescent states at the end of explored interleavings (machine M2): drain + probes
         text="Coq theorems under UpperInv and a never-Invalid policy: drain leaves no reservation; then a base-order get returns out-of-memory only if every tree counter is zero, i.e. every free frame is hidden by an offline tree (no frame outside offline trees is free); a targeted get succeeds iff the tree counter covers the block and the block is entirely free in the allocation state. Uses coverage of the alternating tree walk, the candidate buffer keeping a rated candidate, and C12. Tied to the code by draining and probing at quiescent points of random histories (and at the end of explored interleavings via machine M2), compared with the model and with the harness's own free set.",
         rule=_seqplans.RULE)
